@@ -35,7 +35,7 @@ func (e *Engine) litOf(term string) (string, bool) {
 func (e *Engine) litFactBinary(op, a, b, r string) {
 	la, oka := e.litOf(a)
 	lb, okb := e.litOf(b)
-	if oka && okb && op == "str.concat" {
+	if oka && okb && op == "gs_concat" {
 		e.sc.assume(eq(r, e.strLit(la+lb)))
 	}
 }
@@ -547,7 +547,7 @@ func (e *Engine) builtin(fr *frame, ins ssa.Instruction, b *ssa.Builtin, cc *ssa
 		case Sc:
 			t := cc.Args[0].Type()
 			if isStringT(t) {
-				return Sc{app("str.len", x.T), SI64}
+				return Sc{app("gs_len", x.T), SI64}
 			}
 			if mt, ok := under(t).(*types.Map); ok {
 				_ = mt
@@ -614,7 +614,7 @@ func (e *Engine) appendOp(fr *frame, cc *ssa.CallCommon, args []Val, heap Heap) 
 		// append([]byte, string...)
 		tIsString = true
 		tStr = x.T
-		t = SliceVal{Len: app("str.len", x.T)}
+		t = SliceVal{Len: app("gs_len", x.T)}
 	default:
 		fail("append of %T", args[1])
 	}
@@ -641,9 +641,9 @@ func (e *Engine) appendOp(fr *frame, cc *ssa.CallCommon, args []Val, heap Heap) 
 		} else {
 			e.assumeCopy(n, bvLit(0, 64), sarr, s.Off, s.Len)
 			if tIsString {
-				e.needStrOp("str.bytes", []string{SStr}, arrSort(SI64, SI8))
+				e.needStrOp("gs_bytes", []string{SStr}, arrSort(SI64, SI8))
 				e.strBytesFacts(tStr)
-				e.assumeCopy(n, s.Len, app("str.bytes", tStr), bvLit(0, 64), t.Len)
+				e.assumeCopy(n, s.Len, app("gs_bytes", tStr), bvLit(0, 64), t.Len)
 			} else {
 				e.assumeCopy(n, s.Len, sel(cur, t.Arr), t.Off, t.Len)
 			}
@@ -693,11 +693,11 @@ func (e *Engine) copyOp(fr *frame, cc *ssa.CallCommon, args []Val, heap Heap) Va
 		srcArr = func(c *component, cur string) string { return sel(cur, x.Arr) }
 		sOff = x.Off
 	case Sc:
-		sl := app("str.len", x.T)
+		sl := app("gs_len", x.T)
 		n = e.sc.define("cpn", SI64, ite(app("bvslt", d.Len, sl), d.Len, sl))
-		e.needStrOp("str.bytes", []string{SStr}, arrSort(SI64, SI8))
+		e.needStrOp("gs_bytes", []string{SStr}, arrSort(SI64, SI8))
 		e.strBytesFacts(x.T)
-		srcArr = func(c *component, cur string) string { return app("str.bytes", x.T) }
+		srcArr = func(c *component, cur string) string { return app("gs_bytes", x.T) }
 		sOff = bvLit(0, 64)
 	}
 	e.forLeaves(types.NewSlice(st.Elem()), []pathElem{{field: -1}}, st.Elem(), func(path []pathElem, suffix, leaf string, lt types.Type) {
